@@ -27,7 +27,7 @@ ID = "C10"
 LEVEL = "model_checking"
 DESIGN_REF = "DESIGN.md 4/C10"
 RULE = (
-    "case = (configuration, operation, schedule): 22 hand-shaped namespace trees (three of them beyond small scope: 13 legacy files, 10 versions with 1..3-digit numbers, 28 definitions) (nesting 0..2, several versions of one name, legacy "
+    "case = (configuration, operation, schedule): 23 hand-shaped namespace trees (three of them beyond small scope: 13 legacy files, 10 versions with 1..3-digit numbers, 28 definitions) (nesting 0..2, several versions of one name, legacy "
     ".uavcan files, two roots, cross-root references, targets that are also dependencies sorting before / after their referrer, "
     "diamonds, stray non-definition files) x {read_namespace; read_files for every non-empty target subset (<=5 files: all subsets, "
     "else singles, pairs and the full set) in sorted and reversed list order}; schedules: every choice point (rglob result order, "
@@ -48,8 +48,8 @@ ASSUMPTIONS = [
 ]
 
 
-def D(dir_, name, ver, refs=(), port=None, legacy=False, text=None):
-    return {"dir": dir_, "name": name, "ver": list(ver), "refs": [[r[0], list(r[1]), r[2] if len(r) > 2 else "abs"] for r in refs], "port": port, "legacy": legacy, "text": text}
+def D(dir_, name, ver, refs=(), port=None, legacy=False, text=None, service=False):
+    return {"dir": dir_, "name": name, "ver": list(ver), "refs": [[r[0], list(r[1]), r[2] if len(r) > 2 else "abs"] for r in refs], "port": port, "legacy": legacy, "text": text, **({"service": True} if service else {})}
 
 
 def configs():
@@ -81,6 +81,9 @@ def configs():
     C["same-name-roots"] = {"root": "p/ra", "lookups": ["q/ra"], "defs": [D("p/ra", "ra.A", (1, 0), [("ra.X", (1, 0))]), D("q/ra", "ra.X", (1, 0)), D("q/ra", "ra.Y", (1, 0))]}
     # a nested namespace that repeats the name of the root namespace (legal): the root given BY NAME is the outermost directory of that name
     C["namespace-repeats-root"] = {"root": "ra", "lookups": [], "defs": [D("ra", "ra.A", (1, 0)), D("ra", "ra.v.D", (1, 0)), D("ra", "ra.v.ra.B", (2, 0)), D("ra", "ra.v.ra.B", (1, 1), [("ra.v.D", (1, 0))]), D("ra", "ra.v.ra.c.C", (1, 0), [("ra.v.ra.B", (1, 1)), ("ra.A", (1, 0))])]}
+    # service definitions (their request / response types are not serializable as a whole): as targets, next to messages, legacy, nested
+    C["services"] = {"root": "ra", "lookups": ["rb"], "defs": [D("ra", "ra.Svc", (1, 0), [("rb.X", (1, 0)), ("ra.B", (1, 0)), ("ra.B", (1, 0))], service=True), D("ra", "ra.B", (1, 0)), D("ra", "ra.s.Inner", (1, 0), service=True, legacy=True),
+                                                           D("ra", "ra.Svc", (2, 0), [("rb.X", (1, 0))], service=True), D("rb", "rb.X", (1, 0)), D("rb", "rb.Unused", (1, 0), service=True)]}
     return C
 
 
@@ -303,6 +306,24 @@ def check_rf(case, R):
                 R.counters["type_equality_checks"] += 1
                 if p in by_file and by_file[p] != h:
                     R.violation("read_files-type-differs-from-read_namespace", "types equal those read_namespace yields for the same files", case, observed=[n, p])
+            # ... and the OBJECTS compare equal (==, hash, set membership) with those of read_namespace, both ways
+            objs = {}
+            for rootdir in sorted({d["dir"] for d in cfg["defs"]}):
+                lk = sorted({d["dir"] for d in cfg["defs"]} - {rootdir})
+                try:
+                    for t in pydsdl.read_namespace(base / rootdir, [base / x for x in lk]):
+                        objs[api.rel(base, t.source_file_path)] = t
+                except pydsdl.InvalidDefinitionError:
+                    pass
+            d_, t_ = pydsdl.read_files([base / N.file_of(x) for x in targets], [base / d for d in sorted({t["dir"] for t in targets})], [base / x for x in ([cfg["root"]] + cfg["lookups"])])
+            for t in list(d_) + list(t_):
+                other = objs.get(api.rel(base, t.source_file_path))
+                if other is None:
+                    continue
+                R.counters["object_equality_checks"] += 1
+                if not (t == other and other == t and hash(t) == hash(other) and t in {other} and not (t != other)):
+                    R.violation("read_files-object-not-equal-to-read_namespace-object", "read_files returns the very types read_namespace yields for these files (==, hash, set membership)", case, observed=[str(t), type(t).__name__])
+                    break
     finally:
         ws.remove(base)
 
